@@ -4,6 +4,7 @@ mod driver;
 mod engine;
 mod model;
 mod props;
+mod refgrammar;
 mod refsem;
 mod replay;
 mod space;
